@@ -11,6 +11,8 @@ TECH = "contract-based deductive verification: govc weakest-precondition VCs ove
 CLAIMS = {
  "C16": ("Proof: filter.New/Add/Contains/Build are verified against contracts transcribed from the statement: after Build(kvs) every hash function maps the user key of every entry to a set bit (member), Add is monotone, Contains returns exactly member and leaves the hashers reset; all loops carry inductive invariants, all indices are proved in range, for every input length and every byte content. The bitset size m >= 1 and hash count k >= 0 (floating point) are assumed (assume_after, listed in evidence).",
          "trusted: murmur3 via hash.Hash32 contracts (deterministic function of seed and bytes written since Reset), math.* opaque, m>=1/k>=0 of the float sizing formula assumed; govc itself", "4-C16"),
+ "C10": ("Proof of the statement itself for levelManager.searchLowerBound (after two fix: commits): over all tables of all levels, it returns the entry of the target user key with the largest version not above the read timestamp that any table holds, and not-found when there is none - loop invariants over the level slice and the container/list of handles, for every number of tables, levels, entries and blocks (block size is symbolic: block boundaries are a ghost array). Carried by: Data.LowerBound (binary search, first entry >= key), Index.SearchLowerBound (first block whose EndKey >= key), fetchAndSearchLowerBound, filter.Contains (a member is never denied: C16), the byte-level versioned-key lemmas (keys containing '@'), and four pure lemmas of the table model (tbl_below, tbl_miss, tbl_hit_other, tbl_hit_same: what the two-level search finds in a sorted table cut into blocks).",
+         "the ghost table model (entries of a file, block boundaries, index/filter agreement: lmOK) is a precondition here; that flush, compaction and recovery establish it is C09/C01/C02's business and not yet proved; fetch (file read + decode) is a trusted contract backed by C11; library contracts for container/list, strings, strconv, hash.Hash32; sequential semantics under levelManager.mu", "4-C10"),
  "C07": ("Proof at the level of fingerprints: hasConflict returns true exactly when a remembered committed transaction with ts > readTs wrote a read fingerprint (nested-loop invariants); cleanUpCommittedTxns keeps exactly the entries above the new mark (in-place filter with aliasing slices); newCommitTs refuses exactly when the ghost commit history Hist contains such a transaction (oracle invariant orcInv/histInv: nothing above the clean-up mark is forgotten, the mark never exceeds an open reader); Get records a fingerprint only for store reads; Commit returns ErrConflictTxn iff that holds and then changes neither View nor Hist; read-only / write-only transactions cannot conflict (empty readsFp).",
          "sequential semantics of each critical section (oracle lock held); watermark client contracts trusted (justified by C13); utils.Hash as an uninterpreted deterministic function: the key-level statement equals the fingerprint-level one when no two keys in play collide; DB.search/rawset used through their contracts; fewer than 2^63 commits", "4-C07"),
  "C08": ("Proof: modify/Set/Delete return the documented error in exactly the documented cases and then change nothing; otherwise they only touch the private buffer (frame conditions proved: assigns map pendingWrites, map writesFp). Discard only sets flags and finishes the read mark. Commit on a discarded transaction returns ErrDiscardedTxn, on conflict ErrConflictTxn, in both cases with View and Hist unchanged. View/Update return ErrDBClosed when closed, Update returns the closure's error without calling Commit and with View unchanged.",
